@@ -311,11 +311,13 @@ def to_events(p, obs, attach=False):
             dr = o.get("dr7") or {}
             armed = [t for t, v in dr.items() if isinstance(v, int) and (v & 0xFF) != 0]
             bad = [t for t, v in dr.items() if not isinstance(v, int)]
+            if o.get("proc_state") not in (None, "Z") and bad:
+                raise ToolError(f"independent DR7 probe failed on a live process: {dr}")
             st = o.get("proc_state")
             tasks = o.get("tasks") or {}
             e = dict(base)
             e.update({"cmd": "released", "alive": st is not None and st != "Z" or o.get("exit_code") is not None,
-                      "running": all(v in ("R", "S", "D") for v in tasks.values()) if tasks else True,
+                      "running": all(v in ("R", "S", "D", "Z") for v in tasks.values()) if tasks else True,
                       "patched": sorted(o["patched"]) if o.get("patched") is not None else [-1],
                       "dr_armed": bool(armed), "code": o["exit_code"] if o.get("exit_code") is not None else -1,
                       "err": json.dumps({"state": st, "tasks": tasks, "dr7": dr, "probe_errors": bad})[:300], "k": 10 ** 6,
@@ -333,7 +335,7 @@ def to_events(p, obs, attach=False):
         patched = after.get("patched")
         e = dict(base)
         e.update({"cmd": name, "ok": ok, "err": str(err)[:200], "patched": sorted(patched) if patched is not None else [-1],
-                  "tick": after.get("tick") if after.get("tick") is not None else -1, "panic": "panic" in res})
+                  "tick": after.get("tick") if after.get("tick") is not None else -1, "panic": res.get("panic") is not None})
         nums = {v["num"]: v["link"] for v in (after.get("snapshot") or []) if v.get("line") is not None or v["kind"] == "reloc" or True}
         if name == "drop":
             tasks = after.get("tasks") or {}
